@@ -49,7 +49,7 @@ def lane(i):
                 out.append("patched:" + ("pass" if r.returncode == 0 else "FAIL " + r.stdout[-400:]))
                 r = sh("cargo", "nextest", "run", "--workspace", "--no-fail-fast", "--offline", cwd=wt, env=env)
                 m = re.search(r"(\d+) tests? run: (\d+) passed(?: \((\d+) flaky\))?(?:, (\d+) failed)?", r.stdout)
-                failed = re.findall(r"^\s+FAIL .*?\] +(\S+ +\S+)", r.stdout, re.M)
+                failed = re.findall(r"^\s+FAIL .*?\] +(?:\(\d+/\d+\) +)?(\S+ +\S+)", r.stdout, re.M)
                 out.append("suite:" + (m.group(0) if m else "NO-SUMMARY " + r.stdout[-300:]) + ("" if r.returncode == 0 else " FAILED=" + ",".join(sorted(set(failed)))))
         finally:
             sh("git", "-C", wt, "checkout", "--", ".")
